@@ -125,6 +125,15 @@ func vstubSyscall(trap, a1, a2, a3 uintptr) (uintptr, uintptr, syscall.Errno) {
 	return vstubSyscall6(trap, a1, a2, a3, 0, 0, 0)
 }
 
+// golang.org/x/sys/unix wrappers of the same two system calls
+func vstubUnixPrctl(option int, a2, a3, a4, a5 uintptr) error {
+	_, _, e := vstubSyscall6(kNRPrctlAMD64, uintptr(option), a2, a3, a4, a5, 0)
+	if e != 0 {
+		return e
+	}
+	return nil
+}
+
 func vstubSyscall6(trap, a1, a2, a3, a4, a5, a6 uintptr) (uintptr, uintptr, syscall.Errno) {
 	i := len(vSysTrace)
 	rec := vSysRecord{trap: trap, a: [6]uintptr{a1, a2, a3, a4, a5, a6}, nargs: 6}
